@@ -323,9 +323,10 @@ func createBuilderControl(info *nfpm.Info, size int64, dataDigest []byte) func(t
 		infoContent := infoBuf.String()
 
 		infoHeader := &tar.Header{
-			Name: ".PKGINFO",
-			Mode: 0o600,
-			Size: int64(len(infoContent)),
+			Name:    ".PKGINFO",
+			Mode:    0o600,
+			Size:    int64(len(infoContent)),
+			ModTime: info.MTime,
 		}
 
 		if err := writeFile(tw, infoHeader, strings.NewReader(infoContent)); err != nil {
